@@ -531,6 +531,10 @@ func NewSweep(t *testing.T, name string) *Sweep {
 // Skip reports whether the sweep should not run (replay mode).
 func (sw *Sweep) Skip() bool { return replay != "" }
 
+// Stop reports that enough failures were recorded (3): a sweep on a badly
+// broken tree should end instead of grinding through millions of failures.
+func (sw *Sweep) Stop() bool { return sw.fails >= sw.maxRep }
+
 // Mine reports whether item i belongs to this shard.
 func (sw *Sweep) Mine(i int) bool { return i%nshards == shard }
 
